@@ -97,6 +97,18 @@ def plan(prop, tier, seed, avoid):
         rule = (f"histories generated by profile 'churn' (see C01 for the scheme) plus dump/load round trips of churn worlds, 40% of them with the "
                 f"dump used as a checkpoint (source world mutated between dump and load); {spec['rule_extra']}")
         return dict(jobs=jobs, rule=rule, assumptions=ASSUME_ENGINE)
+    if prop == "C10":
+        # the rejection of dead handles must also hold in a world whose entity pool was restored by LoadEntities
+        spec = ENGINE[prop]
+        jobs = engine_jobs(prop, tier, seed, avoid)
+        cases = 800 if tier == "quick" else 30000
+        for sh in range(8):
+            jobs.append(dict(cmd="serworker", variant="plain", label=f"serworker/shard{sh}", env={}, watchdog=3000,
+                             args=["-seed", str(seed + 29), "-shard", str(sh), "-nshards", "8", "-cases", str(cases), "-pairs", "100"]))
+        rule = (f"histories generated by profile '{spec['profile']}' (see C01 for the scheme) plus dump/load round trips of churn worlds followed by "
+                f"lockstep creations/removals, after which every dead handle is offered to RemoveEntity/CopyEntity/Unsafe.IDs/Unsafe.Add of the "
+                f"loaded world; {spec['rule_extra']}")
+        return dict(jobs=jobs, rule=rule, assumptions=ASSUME_ENGINE)
     if prop == "C03":
         # second job group: every case starts with the scripted method matrix of one typed tuple (all FilterN/QueryN methods of that
         # arity, Batch(rel...) followed by two overlapping queries of the same filter object with different per-query targets, ...)
